@@ -16,6 +16,10 @@ CLAIMED = {
    'ledger primitives are guarded; every documented form of construct! (expanded by the current macro in a witness crate) evaluates each field once, in order, on the shared state, without '
    'short-circuit, reporting the first failing field; parse_option decision table (76 rows) and loop-exit rules for some/many/count/last/collect; the leftover check dominates every Ok of run_subparser. '
    'Does NOT decide language equivalence for every shape x vector (run-time data).', 'DESIGN.md section 5 C01'),
+ 'C02': C('walker-exhaustiveness and accumulator-wiring rules for the short-name registry, accept-set tables, lossy-call census + passthrough reachability in parse_os_str, decision table of disambiguate_short by abstract evaluation, byte/char boundary discipline by provenance',
+   'Decides: the registry that splits `-abc` is complete and wired (flags/args never swapped, help/version shorts included, built from the own meta before tokenising); the attached-value bit is set exactly where the value '
+   'item is pushed next and take_arg accepts exactly Word|ArgWord; no lossy/normalising call on the value path, OsString/PathBuf bypass to_str; the 4-row cluster table; cluster cut offsets are character boundaries '
+   '(found and fixed cdb4e81: `-ñ=v`). Does NOT decide that split_os_argument is a correct transducer for every byte string.', 'DESIGN.md section 5 C02'),
  'C03': C('provenance (index-is-opaque) + search-kind and accept-set tables over MIR',
    'Decides the anchored mechanism only: named consumers select by name over the whole scope and the index found flows only into remove/get/+1/current; words never match a name; '
    'positional consumers skip named items. Does NOT decide permutation invariance of outcomes.', 'DESIGN.md section 5 C03'),
@@ -55,6 +59,10 @@ CLAIMED = {
    'Decides: exit_code table; print_message stream per variant and payload/template per arm; run = run_inner(current_args()) with Ok silent and Err printing before exit(exit_code(err)); '
    'current_args consumes exactly argv[0] (file_name().to_str()) before boxing the same iterator; exit/print call sites are the listed ones; every render arm writes text. '
    'Does NOT decide byte equality across the process boundary.', 'DESIGN.md section 5 C11'),
+ 'C12': C('eval/meta sibling agreement per impl Parser (field provenance), Meta::Skip producer census, walker-exhaustiveness tables for the 7 Meta walkers, Dedup-key vs rendered-fields agreement, field-copy provenance, dominance order of render_help',
+   'Decides: for each of the 30 Parser impls the sub-parsers evaluated are exactly the sub-parsers described and names matched are names described (listed exceptions: hide, construct!); Skip only from hide/pure/fail/name-less; '
+   'every walker visits all children of And/Or and the child of each wrapper (listed exceptions by design); the de-duplication key covers every field the help line shows; HelpItem::from copies fields one to one; '
+   'first names shown are from the searched vectors; descr/usage/header/items/footer order. Does NOT decide grouping/dedup outcomes for particular shapes.', 'DESIGN.md section 5 C12'),
  'C15': C('typed taint + template/CFG rules over type-checked MIR (custom rustc_private driver)',
    'Decides structural necessary conditions on every autocomplete configuration: every fmt argument render_zsh/render_bash '
    'write has the quoting newtype Shell as its resolved Display type (constants, integers and developer-supplied Raw strings '
